@@ -273,8 +273,9 @@ def main():
         res, _ = hvsrobj.export_graph(mc, f"C12-mc{na}", {"VERIF_K": k or 1, "VERIF_SEED": run.seed}, timeout=3000)
         run.add_tlc(res, f"HvsrObject NA={na}: MetaRangeCurrent (ReadBack(Write(o)) = o), PeaksCurrent, CurvesFixed")
     total = 0
-    for na, rng_, k, insts in ((1, "Ranges6", 30 if quick else 8, (("N", "N"), ("L", "L"))),
-                               (2, "Ranges6s", 12000 if quick else 2500, (("N", "N"), ("L", "L")))):
+    # (N, L): distribution_fn = normal, distribution_mc = lognormal - the two distributions of the writer differ
+    for na, rng_, k, insts in ((1, "Ranges6", 30 if quick else 8, (("N", "N"), ("L", "L"), ("N", "L"))),
+                               (2, "Ranges6s", 12000 if quick else 2500, (("N", "N"), ("L", "N")))):
         ex = hvsrobj.cfg_text(na, 3, 6, "Alpha6a", rng_, "NSetA", "MaxItsA", "InitEnv", export=True)
         res, graph = hvsrobj.export_graph(ex, f"C12-export{na}", {"VERIF_K": k, "VERIF_SEED": run.seed}, timeout=3000)
         run.add_tlc(res, f"HvsrObject NA={na} export")
